@@ -305,3 +305,41 @@ macro_rules! proofs { ($($name:ident = ($k:expr, $p:expr, $r:expr)),*) => {$(
     fn $name() { one_request($k, $p, $r) }
 )*}}
 proofs!(custom_policy_predicate_retry = (2, true, true), custom_policy_no_predicate = (2, false, true), fixed_policy_no_retry = (1, true, false), no_policy = (0, true, true));
+
+/// Configuration reaches the service: the attempt limit (0 = "never retry" included,
+/// unlimited when asked for, last writer wins), retry_on_reconnect and the presence of a
+/// predicate set through the public builder are the ones in the built config.
+#[kani::proof]
+#[kani::unwind(4)]
+fn builder_is_faithful() {
+    let n: u32 = kani::any();
+    let order: u8 = kani::any();
+    kani::assume(order < 4);
+    let retry: bool = kani::any();
+    let with_pred: bool = kani::any();
+    let mut b = ReconnectConfig::builder().retry_on_reconnect(retry);
+    let expect = match order {
+        0 => {
+            b = b.max_attempts(n);
+            Some(n)
+        }
+        1 => {
+            b = b.unlimited_attempts().max_attempts(n);
+            Some(n)
+        }
+        2 => {
+            b = b.max_attempts(n).unlimited_attempts();
+            None
+        }
+        _ => None, // default: unlimited
+    };
+    if with_pred {
+        b = b.reconnect_predicate(|_e: &dyn std::error::Error| true);
+    }
+    let cfg = b.build();
+    assert!(cfg.max_attempts == expect, "[C16.config_max_attempts_used] the configured attempt limit (0 included) is the one the service uses; unlimited only when asked for");
+    assert!(cfg.retry_on_reconnect == retry, "[C16.config_retry_flag_used] the configured retry_on_reconnect flag is used");
+    assert!(cfg.reconnect_predicate.is_some() == with_pred, "[C16.config_predicate_used] a configured predicate is installed, none otherwise");
+    kani::cover!(order == 0 && n == 0, "max_attempts(0) covered");
+    std::mem::forget(cfg);
+}
